@@ -70,8 +70,26 @@ func (g *genState) target() (string, bool) {
 	return "`" + name + "`", false
 }
 
+const probeFile = "p.csv"
+
+// a file in a form csvq would not write itself (CRLF, needless quotes, no final line break): any rewrite changes its bytes
+const probeBytes = "id,v,s\r\n1,\"x\",y\r\n2,z,\"w w\""
+
+var probeStmts = []string{
+	"UPDATE `p.csv` SET v = 1 WHERE id = -1",
+	"DELETE FROM `p.csv` WHERE id = -1",
+	"INSERT INTO `p.csv` (id, v, s) SELECT id, v, s FROM `p.csv` WHERE id = -1",
+	"REPLACE INTO `p.csv` (id, v, s) USING (id) SELECT id, v, s FROM `p.csv` WHERE id = -1",
+	"SELECT * FROM `p.csv` FOR UPDATE",
+	"SELECT COUNT(*) FROM `p.csv`",
+	"UPDATE `p.csv` SET s = s WHERE 1 = 0",
+}
+
 func (g *genState) leaf() node {
 	t := g.t
+	if fw.Pct(t, "probe", 12) {
+		return node{ID: g.id(), Kind: "dml", SQL: fw.PickU(t, "probeStmt", probeStmts)}
+	}
 	tn, isTemp := g.target()
 	n := node{ID: g.id(), Kind: "dml", Temp: isTemp}
 	switch fw.Range(t, "leafKind", 0, 11) {
@@ -176,6 +194,7 @@ func genProg(t *rapid.T, withTemps bool) progCase {
 	}
 	c.Untouched = "u.csv"
 	c.Files[c.Untouched] = genFile(t)
+	c.Files[probeFile] = probeBytes
 	var prog []node
 	if withTemps {
 		nt := fw.Range(t, "ntemps", 1, 2)
@@ -421,6 +440,7 @@ func checkCLI(c progCase) (fw.Outcome, *fw.Violation) {
 	judge := func(tag string, env []string, signalled bool) (*fw.Violation, []int, run.CLIRes, []string) {
 		dir := setup(c, tag)
 		ino0, mt0 := inoMtime(filepath.Join(dir, c.Untouched))
+		pino0, pmt0 := inoMtime(filepath.Join(dir, probeFile))
 		logp := ""
 		if tag == "plain" {
 			logp = filepath.Join(home, fmt.Sprintf("points-%d.log", atomic.AddInt64(&seq, 1)))
@@ -433,6 +453,7 @@ func checkCLI(c progCase) (fw.Outcome, *fw.Violation) {
 			_ = os.RemoveAll(dir)
 			dir = setup(c, tag+"-retry")
 			ino0, mt0 = inoMtime(filepath.Join(dir, c.Untouched))
+			pino0, pmt0 = inoMtime(filepath.Join(dir, probeFile))
 			if logp != "" {
 				_ = os.Remove(logp)
 			}
@@ -450,7 +471,13 @@ func checkCLI(c progCase) (fw.Outcome, *fw.Violation) {
 		}
 		got := run.Snapshot(dir)
 		ino1, mt1 := inoMtime(filepath.Join(dir, c.Untouched))
+		pino1, pmt1 := inoMtime(filepath.Join(dir, probeFile))
 		_ = os.RemoveAll(dir)
+		if _, hasProbe := c.Files[probeFile]; hasProbe {
+			if got[probeFile] != c.Files[probeFile] || pino0 != pino1 || !pmt0.Equal(pmt1) {
+				return fw.V("unchanged_table_rewritten", "%s: %s is only touched by statements that change no record (zero-match UPDATE/DELETE/INSERT..SELECT/REPLACE, SELECT FOR UPDATE) but was rewritten: %q -> %q (inode %d->%d)\nprocedure:\n%s", tag, probeFile, c.Files[probeFile], got[probeFile], pino0, pino1, prog), nil, res, points
+			}
+		}
 		if res.TimedOut {
 			return fw.V("hang", "%s: process did not terminate\n%s", tag, prog), nil, res, points
 		}
